@@ -28,6 +28,20 @@ RelaxI(n, E, inE, unit, D) == [v \in Nodes(n) |->
 RECURSIVE IterI(_, _, _, _, _, _)
 IterI(n, E, inE, unit, D, k) == LET D2 == TLCEval(RelaxI(n, E, inE, unit, D)) IN IF k = 0 \/ D2 = D THEN D ELSE IterI(n, E, inE, unit, D2, k - 1)
 DistI(n, E, inE, unit, src) == IterI(n, E, inE, unit, TLCEval([v \in Nodes(n) |-> IF v = src THEN 0 ELSE -1]), n)
+\* ---- PageRank as the applications define it (not normalised): PR(v) = (1 - a) + a * SUM over edges u -> v of PR(u) / outdeg(u),
+\* a = 0.85, in fixed point with six decimals (TLC has integers only); iterated until no rank moves by more than 10^-5
+PRScale == 1000000
+OutDeg(E, u) == Cardinality({j \in 1..Len(E) : E[j][1] = u})
+RECURSIVE SumContrib(_, _, _, _)
+SumContrib(E, deg, P, I) == IF I = {} THEN 0 ELSE LET i == CHOOSE x \in I : TRUE IN (85 * P[E[i][1]]) \div (100 * deg[E[i][1]]) + SumContrib(E, deg, P, I \ {i})
+PRStep(n, E, inE, deg, base, P) == [v \in Nodes(n) |-> base + SumContrib(E, deg, P, inE[v])]
+Abs(x) == IF x < 0 THEN -x ELSE x
+RECURSIVE PRIter(_, _, _, _, _, _, _)
+PRIter(n, E, inE, deg, base, P, k) == LET P2 == TLCEval(PRStep(n, E, inE, deg, base, P)) IN
+   IF k = 0 \/ \A v \in Nodes(n) : Abs(P2[v] - P[v]) <= 10 THEN P2 ELSE PRIter(n, E, inE, deg, base, P2, k - 1)
+\* normalised = TRUE: the "topological" variants use the base score (1 - a) / n (ranks sum to at most 1)
+PageRank(n, E, inE, normalised) == LET base == IF normalised THEN 150000 \div n ELSE 150000 IN
+   PRIter(n, E, inE, TLCEval([u \in Nodes(n) |-> OutDeg(E, u)]), base, TLCEval([v \in Nodes(n) |-> base]), 300)
 \* ---- connected components of a symmetric graph: label = smallest reachable node
 Label(n, E) == TLCEval([v \in Nodes(n) |-> LET D == TLCEval(Dist(n, E, TRUE, v)) IN MinSet({u \in Nodes(n) : D[u] # -1})])
 Components(n, E) == LET L == Label(n, E) IN {{v \in Nodes(n) : L[v] = c} : c \in {L[v] : v \in Nodes(n)}}
